@@ -203,6 +203,12 @@ def deriv(f, x, h=1e-3):
 def check_rotation_rules(ctx):
     m = ctx.model
     rot = m.cls(GATES + ".Rotation")
+    # the helper the controlled rotations use for |b><b| (read as that projector by the evaluation below)
+    op = m.functions.get(GATES + "._outer_prod_diag")
+    if op is not None:
+        ctx.analysed(GATES + "._outer_prod_diag")
+        shape.match(ctx, "R15.3", GATES + "._outer_prod_diag", ret_expr(op.body), "Bra(*bitstring) >> Ket(*bitstring)", {op.args.vararg.arg if op.args.vararg else "bitstring": "bitstring"}, mod=GATES, node=op,
+                    sig="projector", required="the projector |b><b|: the effect first, the state after it")
     for c in sorted(m.subclasses(rot, strict=True), key=lambda k: k.q):
         r = m.lookup(c, "grad")
         ctx.analysed(c.q + ".grad")
@@ -503,6 +509,11 @@ def check_forwarding(ctx):
     flag_ok = flag is None or (isinstance(flag, ast.Constant) and flag.value is False)
     ctx.ob("R15.5", q + ":evaluated-array", (not from_eval) or flag_ok, found=ast.unparse(call), required="a gate rebuilt from self.eval() (where the functor has already applied the dagger) is not flagged as a dagger again",
            mod=GATES, node=call, sig="classical-grad-flag")
+    typ = [ast.unparse(a) for a in call.args[1:3]] if len(call.args) >= 3 else [ast.unparse(next((kk.value for kk in call.keywords if kk.arg == k), ast.Constant(None))) for k in ("dom", "cod")]
+    ctx.ob("R15.5", q + ":type", typ == ["self.dom", "self.cod"], found=typ, required="the gradient of a gate has the gate's type: (self.dom, self.cod)", mod=GATES, node=call, sig="classical-grad-type")
+    g0 = next((s for s in fn.body if isinstance(s, ast.If)), None)
+    shape.match(ctx, "R15.5", q + ":no-dependence", ret_expr(g0.body) if g0 is not None else None, "Sum([], self.dom, self.cod)", {}, mod=GATES, node=g0 or fn, sig="classical-grad-empty",
+                required="the empty sum typed like the gate")
     if data is not None:
         shape.match(ctx, "R15.5", q + ":data", data, "self.eval().grad(var, **params).array", {fn.args.args[1].arg: "var", fn.args.kwarg.arg if fn.args.kwarg else "params": "params"}, mod=GATES, node=call,
                     sig="classical-grad-data", required="the entry-wise derivative of the evaluated array")
